@@ -85,7 +85,10 @@ PROPS = {
             f"{PM}._power_managing_actor:PowerManagingActor._calculate_target_power",
         ],
         lemmas=[],
-        bounded=[],
+        # the expiry event: the class invariant 'a stored target has a bucket' must survive drop_old_proposals
+        bounded=[dict(kind="contract_search", name="drop_old_proposals (expiry keeps buckets and stored targets)",
+                      target=f"{MAT}.drop_old_proposals", contract_module="contracts.pm_matryoshka", budget_s=8,
+                      thorough_budget_s=60)],
         level="proof",
         explanation="_calculate_target_power is verified against Matryoshka.calculate_target_power's contract (None = stored "
                     "target unchanged; returned value = stored target; stored target inside the bounds it was computed "
@@ -93,7 +96,8 @@ PROPS = {
                     "the system inclusion bounds, in all three branches.",
         assumptions=[REALS, EXTRACTION,
                      "history quantifier: carried by the class invariant 'a stored target has a bucket' (required, and "
-                     "proved preserved) - every event handler funnels into _calculate_target_power"],
+                     "proved preserved) - every event handler funnels into _calculate_target_power; the expiry timer's "
+                     "drop_old_proposals preserves it only by a BOUNDED native search of its contract (labelled, not proved)"],
     ),
     "C13": dict(
         modules=["fe_steps"],
